@@ -157,7 +157,7 @@ def build_case(prop, b):
                 if i in hidden and not ln.startswith(("C", "c", "*", "!")):
                     lab = ln[:5].strip()
                     # the label of a conditional line goes into columns 3-5
-                    flines.append(sty + (lab.rjust(3) if lab else "   ") + ln[5:])
+                    flines.append(sty + ((lab.ljust(3) if (b["id"] + i) % 2 else lab.rjust(3)) if lab else "   ") + ln[5:])
                 else:
                     flines.append(ln)
         fsrc = "\n".join(flines) + "\n"
